@@ -32,11 +32,16 @@ def fval(x):
         return repr(x)
 
 
-def sim_call(fn, schedule, faults=None, rng_injector=None, max_steps=3_000_000):
+SORTEDCONTAINERS_DIR = os.path.dirname(os.path.abspath(__import__("sortedcontainers").__file__)) + os.sep
+
+
+def sim_call(fn, schedule, faults=None, rng_injector=None, max_steps=3_000_000, watcher=None):
     flt = SolverFaults(faults["mode"], faults.get("fail")) if faults else None
+    # swarm knob: also pre-empt between the source lines of sortedcontainers (the containers jobs share)
+    extra = (SORTEDCONTAINERS_DIR,) if schedule.get("trace_sortedcontainers") else ()
     return run_sim(fn, policy=schedule["policy"], workers=schedule["workers"],
                    trace_lines=schedule.get("trace_lines", True), faults=flt,
-                   rng_injector=rng_injector, max_steps=max_steps)
+                   rng_injector=rng_injector, max_steps=max_steps, extra_prefixes=extra, watcher=watcher)
 
 
 def sched_digest(out):
